@@ -153,6 +153,9 @@ Proof.
   f_equal. f_equal. rewrite nlen_spec. apply take_used_app.
 Qed.
 
+Lemma rej_recognize g d i : Rej g d i -> Rej (Recognize g) d i.
+Proof. intros H b f Hf Hb. cbn [need] in Hf. pose proof (H b f Hf Hb) as H'. sub_S f Hf. rewrite H'. reflexivity. Qed.
+
 (* alternatives *)
 Lemma need_alt_cons g gs d : need rk (Alt (g :: gs)) d = N.max (need rk g d) (need rk (Alt gs) d).
 Proof. reflexivity. Qed.
